@@ -104,4 +104,24 @@ Definition pearson (a b : vec) : T :=
   n_div Ops (vsum (vmap2 (n_mul Ops) da db))
           (n_sqrt Ops (n_mul Ops (vsum (map sq da)) (vsum (map sq db)))).
 
+(* average ranks (ties share the mean of their positions), for Spearman's rho *)
+Definition vrank (v : vec) (x : T) : T :=
+  let less := length (filter (fun y => n_ltb Ops y x) v) in
+  let eq := length (filter (fun y => n_eqb Ops y x) v) in
+  n_add Ops (n_ofnat Ops less) (n_div Ops (n_ofnat Ops (S eq)) (n_lit Ops 2 1)).
+Definition spearman_spec (a b : vec) : T :=
+  pearson (map (vrank a) a) (map (vrank b) b).
+
+(* Kendall's tau-b over all pairs i<j *)
+Fixpoint pairs_after {A} (l : list A) : list (A * A) :=
+  match l with [] => [] | x :: r => map (fun y => (x, y)) r ++ pairs_after r end.
+Definition kendall_spec (a b : vec) : T :=
+  let ps := pairs_after (combine a b) in
+  let sgn (x y : T) : T := if n_ltb Ops x y then one else if n_ltb Ops y x then n_neg Ops one else zero in
+  let s := vsum (map (fun p => n_mul Ops (sgn (fst (fst p)) (fst (snd p))) (sgn (snd (fst p)) (snd (snd p)))) ps) in
+  let ta := length (filter (fun p => n_eqb Ops (fst (fst p)) (fst (snd p))) ps) in
+  let tb := length (filter (fun p => n_eqb Ops (snd (fst p)) (snd (snd p))) ps) in
+  let n0 := length ps in
+  n_div Ops s (n_sqrt Ops (n_mul Ops (n_ofnat Ops (n0 - ta)) (n_ofnat Ops (n0 - tb)))).
+
 End Vec.
